@@ -11,8 +11,8 @@ MNext == MExtend \/ MFinish
 MSpec == MInit /\ [][MNext]_<<s, fin>>
 RoundTripInv == fin => RoundTrips(s)
 \* the full byte range plus three printable code points above 0xff
-Bytes == 0..255 \cup {20013, 233 + 256, 128512}
+Bytes == 0..255 \cup {20013, 233 + 256, 128512} \cup NonPrintHigh
 \* a class cover: one or two representatives per case of escape()/Decode, incl. the characters that
 \* make the \C-\M- spelling ambiguous
-Cover == {0, 1, 7, 9, 13, 27, 28, 31, 32, 34, 39, 45, 48, 55, 63, 67, 77, 92, 97, 100, 120, 127, 128, 129, 159, 160, 162, 167, 220, 255, 20013}
+Cover == {0, 1, 7, 9, 13, 27, 28, 31, 32, 34, 39, 45, 48, 55, 63, 67, 77, 92, 97, 100, 120, 127, 128, 129, 159, 160, 162, 167, 220, 255, 20013, 8205, 57344}
 =============================================================================
